@@ -118,6 +118,7 @@ type Frame struct {
 }
 
 type Exec struct {
+	siteMatched map[*Clause]bool // site clauses that applied to at least one call
 	declNames  map[*ssa.Function]map[string]bool
 	panicMode  bool // deferred calls are being run because of a panic
 	didRecover bool // recover() was evaluated in panic mode
@@ -1087,6 +1088,12 @@ func (x *Exec) loopInvariants(fr *Frame, li *loopInfo) []*Clause {
 	for _, c := range fr.ctr.Clauses {
 		if c.Kind == "invariant" && c.Loop == li.index {
 			r = append(r, c)
+			if fr.top {
+				if x.siteMatched == nil {
+					x.siteMatched = map[*Clause]bool{}
+				}
+				x.siteMatched[c] = true
+			}
 		}
 	}
 	return r
